@@ -30,6 +30,15 @@ for m in sorted(glob.glob(os.path.join(V, "seeded", "*", "meta.json"))):
     nt += 1; nd += 1 if d.get("detected") else 0
     srows.append(f"| {d['seed_id']} | {d['property']} | {'yes' if d.get('confirmed_by_lead') else 'no'} | {det} | {need.replace('|', '/')} |")
 seeds = f"{nt} seeded changes kept, {nd} detected by the quick tier of the property's check.\n\n" + "\n".join(srows)
+
+# ---- units as built (from checks/*.json) ----
+urows = ["| property | unit | package | tests (run regex) | quick cases | thorough cases × shards | race |", "|---|---|---|---|---|---|---|"]
+for cf in sorted(glob.glob(os.path.join(V, "checks", "c*.json"))):
+    for pid, c in json.load(open(cf)).items():
+        for un, u in c.get("units", {}).items():
+            q = u.get("quick", {}); t = u.get("thorough", {})
+            urows.append(f"| {pid} | {un} | {u['pkg']} | `{u.get('run','').replace('|', chr(92)+'|')}` | {q.get('checks','-')} | {t.get('checks','-')} × {t.get('shards',1)} | {'yes' if u.get('race') else ''} |")
+units = "One row per unit the driver builds and runs (a unit = one test binary built from /repo's working tree plus the listed harness files).\n\n" + "\n".join(urows)
 p = os.path.join(V, "DESIGN.md"); s = open(p).read()
 def put(s, name, body):
     a, b = f"<!-- BEGIN {name} -->", f"<!-- END {name} -->"
@@ -39,5 +48,6 @@ def put(s, name, body):
     return s[:i] + "\n" + body + "\n" + s[j:]
 s = put(s, "FINDINGS", findings)
 s = put(s, "SEEDS", seeds)
+s = put(s, "UNITS", units)
 open(p, "w").write(s)
 print(f"findings {len(kf)} ({nf} fixed, {no} open); seeds {nt} ({nd} detected)")
